@@ -159,6 +159,12 @@ def lisConvert (t : List (LisCat α)) (v : Option α) (u1 u2 : String) : Except 
       | none => .error .keyError
       | some ucc => ucc.convert v u1 u2
 
+/-- all unit names of one category (`UnitConvertCategory.units()`) -/
+def LisCat.names (k : LisCat α) : List String := k.units.map (fun x => x.name)
+
+/-- all unit names of the table (`units()`), in table order -/
+def allNames (t : List (LisCat α)) : List String := t.flatMap LisCat.names
+
 /-- `category(unit)` -/
 def lisCategory (t : List (LisCat α)) (u : String) : Except Err String :=
   match unitToCategory t u with
@@ -228,14 +234,15 @@ def osddRowOk (r : TD.Gen.C17Osdd.Row) : Bool := r.sn != 0 && r.sd != 0 && r.od 
 
 def lisRowOk (r : TD.Gen.C17Lis.Row) : Bool := r.mn != 0 && r.md != 0 && r.od != 0
 
-/-- all unit names of the LIS table, in table order -/
-def lisNames : List String := TD.Gen.C17Lis.cats.flatMap (fun c => c.units.map (·.name))
-
-def lisCatNames : List String := TD.Gen.C17Lis.cats.map (·.cat)
-
 /-- no repeated element (Boolean) -/
 def nodupB : List String → Bool
   | [] => true
   | x :: xs => !xs.contains x && nodupB xs
+
+/-- what the import-time `assert`s of `LIS/core/Units.py` check: unit names unique over the whole table, category
+names unique (they are dictionary keys). Looks at names only, so the kernel can evaluate it on `lisTable`. -/
+def lisWFB {α : Type} (t : List (LisCat α)) : Bool := nodupB (allNames t) && nodupB (t.map (fun k => k.cat))
+
+def lisRowsOk : Bool := TD.Gen.C17Lis.cats.all (fun c => c.units.all lisRowOk)
 
 end TD.C17
